@@ -438,8 +438,23 @@ func genC27(r *simrt.Rand, tier string) any {
 		sc := &PmScn{Sched: RandSched(r)}
 		sc.Sched.HorizonS = 600
 		progs := []uint32{100003, 100005, 100021}
+		// registered keys, so that UNSET removes something (from the middle of the list as well): the
+		// portmapper's own six entries and whatever was SET before
+		var have []pmKey
+		for _, v := range []uint32{2, 3, 4} {
+			have = append(have, pmKey{100000, v, 6}, pmKey{100000, v, 17})
+		}
 		for i, n := 0, 4+r.Int(8); i < n; i++ {
-			sc.Mut = append(sc.Mut, PmOp{Vers: 2, Proc: uint32(1 + r.Int(2)), Prog: progs[r.Int(3)], PVers: uint32(1 + r.Int(3)), Prot: []uint32{6, 17}[r.Int(2)], Port: uint32(1 + r.Int(65535))})
+			if r.Pct(50) && len(have) > 0 {
+				j := r.Int(len(have))
+				k := have[j]
+				have = append(have[:j], have[j+1:]...)
+				sc.Mut = append(sc.Mut, PmOp{Vers: 2, Proc: 2, Prog: k.prog, PVers: k.vers, Prot: k.prot, Port: 1})
+				continue
+			}
+			k := pmKey{progs[r.Int(3)], uint32(1 + r.Int(3)), []uint32{6, 17}[r.Int(2)]}
+			have = append(have, k)
+			sc.Mut = append(sc.Mut, PmOp{Vers: 2, Proc: 1, Prog: k.prog, PVers: k.vers, Prot: k.prot, Port: uint32(1 + r.Int(65535))})
 		}
 		for rd, nrd := 0, 1+r.Int(3); rd < nrd; rd++ {
 			var ops []PmOp
